@@ -61,6 +61,8 @@ BAD = ["{% if %}", "a\n{{ 1 + }}", "{% foo %}", "x{% block b %}", "{{ 'unclosed 
        # what stands where a name is expected: in a for tag, after is / is not, and the word after the sequence of a for tag
        "line one\n{% for k, 5 in items %}{% endfor %}", "{% for 1 in items %}{% endfor %}", "a\nb {{ a is 5 }}", "{{ a is not 'x' }}",
        "{% for v in items\n  unless %}{% endfor %}",
+       # an elseif with no if to belong to, a for tag without its keyword
+       "x{% elseif a %}y{% endif %}", "{% for a b items %}{% endfor %}", "{% for a, b true items %}{% endfor %}",
        # a malformed print between the blocks of an embed
        "{% embed 'ok' %}\n{{ a 5 }}{% block b %}x{% endblock %}{% endembed %}", "{% embed 'ok' %}{{ }}{% endembed %}"]
 
